@@ -115,6 +115,33 @@ func loadRegistry(repo, verifDir string, pkgPaths []string) (*Registry, error) {
 		}
 	}
 	r.computeFinalGlobals()
+	// element sorts of all heap classes of module struct types (so that `allof("T.f")` and loop
+	// havoc know the sort of a class before any code path has touched it)
+	for path, p := range r.pkgs {
+		if !strings.HasPrefix(path, modulePath) || p.Types == nil {
+			continue
+		}
+		sc := p.Types.Scope()
+		for _, n := range sc.Names() {
+			tn, ok := sc.Lookup(n).(*types.TypeName)
+			if !ok || tn.IsAlias() {
+				continue
+			}
+			st, ok := tn.Type().Underlying().(*types.Struct)
+			if !ok {
+				continue
+			}
+			func() {
+				defer func() { recover() }() // struct types with fields outside the subset are skipped
+				for i := 0; i < st.NumFields(); i++ {
+					f := st.Field(i)
+					for _, l := range leavesOf(f.Type()) {
+						noteClass(structClass(tn.Type())+"."+f.Name()+l.Path, l.Sort, false)
+					}
+				}
+			}()
+		}
+	}
 	// contract files: /repo/<pkg>/zz_contracts_verif.go, else mirror; plus /verif/models/*.spec for externals
 	for path := range r.pkgs {
 		if !strings.HasPrefix(path, modulePath+"/") {
